@@ -469,8 +469,9 @@ def _receiver_type(w, recv, out, case, unit):
         t = recv.t
         if isinstance(t, tp.ParameterizedType):
             bad = [a for a in t.type_args if a.is_type_constructor() or (hasattr(a, 'is_primitive') and a.is_primitive())]
-            out.append(('C01', Ob('%s|receiver-type-arguments-usable' % unit, not bad,
-                                  dict(case, receiver_type=str(t)))))
+            for asp in ('C01', 'C08'):
+                out.append((asp, Ob('%s|receiver-type-arguments-usable' % unit, not bad,
+                                    dict(case, receiver_type=str(t)))))
         return t
     return None
 
@@ -541,9 +542,13 @@ def c_gen_func_call(w, etype, subtype, res, case):
             if p.bound is not None:
                 out.append(('C01', Ob('gen_func_call|type-argument-within-bound', assignable(w, a, p.bound),
                                       dict(case, type_argument=str(a), bound=str(p.bound)))))
-            out.append(('C01', Ob('gen_func_call|type-argument-usable',
-                                  not a.is_type_constructor() and not (hasattr(a, 'is_primitive') and a.is_primitive()),
-                                  dict(case, type_argument=str(a)))))
+            for asp in ('C01', 'C08'):
+                out.append((asp, Ob('gen_func_call|type-argument-usable',
+                                    not a.is_type_constructor() and not (hasattr(a, 'is_primitive') and a.is_primitive()),
+                                    dict(case, type_argument=str(a)))))
+                if p.bound is not None:
+                    out.append((asp, Ob('gen_func_call|type-argument-within-bound|%s' % asp, assignable(w, a, p.bound),
+                                        dict(case, type_argument=str(a), bound=str(p.bound)))))
     else:
         out.append(('C01', Ob('gen_func_call|no-type-arguments-for-plain-function', not res.type_args, case)))
     # arity: every parameter without default gets exactly one positional argument, in order
